@@ -107,11 +107,32 @@ func matchKnown(v *Violation) *KnownFinding {
 		if k.Status != "open" || k.Prop != v.Prop {
 			continue
 		}
-		if k.Sig == v.Sig || (strings.HasSuffix(k.Sig, "*") && strings.HasPrefix(v.Sig, strings.TrimSuffix(k.Sig, "*"))) {
+		if k.Sig == v.Sig || globMatch(k.Sig, v.Sig) {
 			return k
 		}
 	}
 	return nil
+}
+
+// globMatch matches s against a pattern in which '*' stands for any (possibly
+// empty) run of characters; everything else is literal.
+func globMatch(pat, s string) bool {
+	if !strings.Contains(pat, "*") {
+		return pat == s
+	}
+	parts := strings.Split(pat, "*")
+	if !strings.HasPrefix(s, parts[0]) {
+		return false
+	}
+	s = s[len(parts[0]):]
+	for i := 1; i < len(parts)-1; i++ {
+		j := strings.Index(s, parts[i])
+		if j < 0 {
+			return false
+		}
+		s = s[j+len(parts[i]):]
+	}
+	return strings.HasSuffix(s, parts[len(parts)-1])
 }
 
 // AddViolation records a violation; a listed known finding is only counted.
